@@ -960,6 +960,10 @@ func (c *Client) loadServerCert(cert string) error {
 
 	certPool.AddCert(x509Cert)
 
+	if c.config.TLSConfig == nil {
+		return errors.New("plugin sent a TLS certificate but the client has no TLS configuration")
+	}
+
 	c.config.TLSConfig.RootCAs = certPool
 	c.config.TLSConfig.ClientCAs = certPool
 	return nil
